@@ -872,6 +872,17 @@ class Parser:
         self, min_precedence: int = 0, exclude_in: bool = False
     ) -> Node:
         """Parse binary expression with operator precedence."""
+        # -a ** b is ambiguous and not part of the grammar: the base of ** is
+        # an update expression, (-a) ** b and -(a ** b) need the parentheses
+        unary_base = self._check(
+            TokenType.MINUS,
+            TokenType.PLUS,
+            TokenType.NOT,
+            TokenType.TILDE,
+            TokenType.TYPEOF,
+            TokenType.VOID,
+            TokenType.DELETE,
+        )
         left = self._parse_unary_expression()
 
         while True:
@@ -886,6 +897,13 @@ class Parser:
             precedence = PRECEDENCE.get(op, 0)
             if precedence < min_precedence:
                 break
+
+            if op == "**" and unary_base:
+                raise self._error(
+                    "Unary operator used immediately before '**': "
+                    "parenthesize the base or the whole expression"
+                )
+            unary_base = False
 
             self._advance()
 
